@@ -507,9 +507,15 @@ func (rp *replayer) replay(fn *ssa.Function, v *Verdict, cexPath string) (bool, 
 		attempts = 40 // real goroutines cannot be forced into the engine's schedule: repeat the scenario
 	}
 	var last string
-	for a := 0; a < attempts; a++ {
+	hangKind := v.Kind == "deadlock" || v.Kind == "leak"
+	testTimeout := "300s"
+	if hangKind || v.Schedule {
+		testTimeout = "25s"
+	}
+	deadline := time.Now().Add(150 * time.Second)
+	for a := 0; a < attempts && (a == 0 || time.Now().Before(deadline)); a++ {
 		scratch, _ := os.MkdirTemp(rp.tmp, "run-")
-		cmd := exec.Command(bin, "-test.run", "^TestVHReplay$", "-test.count=1", "-test.timeout=300s")
+		cmd := exec.Command(bin, "-test.run", "^TestVHReplay$", "-test.count=1", "-test.timeout="+testTimeout)
 		cmd.Dir = scratch
 		cmd.Env = append(os.Environ(), "VERIF_REPLAY="+cexPath, "VERIF_NATIVE=1")
 		out, _ := cmd.CombinedOutput()
@@ -523,6 +529,9 @@ func (rp *replayer) replay(fn *ssa.Function, v *Verdict, cexPath string) (bool, 
 			}
 			if v.Kind != "assert" && strings.Contains(txt, "VH-ASSERT-FAILED "+nativeTwin(v)) {
 				return true, "native twin assertion failed"
+			}
+			if hangKind && strings.Contains(txt, "test timed out") {
+				return true, "the native run hangs (test timed out after " + testTimeout + ")"
 			}
 		case "panic":
 			if strings.Contains(txt, "VH-PANIC") || strings.Contains(txt, "panic:") {
